@@ -38,13 +38,23 @@ type Recorder struct {
 	mu    sync.Mutex
 	inner xmlstream.TokenWriteFlusher
 	evs   []Event
-	// InRegion is maintained by the harness' mutual-exclusion probe.
+	tag   int // the call running now (sequential scenarios), -1 otherwise
 }
 
-func NewRecorder(inner xmlstream.TokenWriteFlusher) *Recorder { return &Recorder{inner: inner} }
+func NewRecorder(inner xmlstream.TokenWriteFlusher) *Recorder {
+	return &Recorder{inner: inner, tag: -1}
+}
+
+// SetTag names the call whose events follow (sequential scenarios only).
+func (r *Recorder) SetTag(i int) {
+	r.mu.Lock()
+	r.tag = i
+	r.mu.Unlock()
+}
 
 func (r *Recorder) log(e Event) {
 	r.mu.Lock()
+	e.Call = r.tag
 	r.evs = append(r.evs, e)
 	r.mu.Unlock()
 }
